@@ -420,24 +420,46 @@ pub fn run_campaign(cfg: &CampaignCfg, check: &dyn Check) -> CampaignResult {
             }
         }
     }
-    let mut reported_classes: BTreeMap<String, usize> = BTreeMap::new();
-    let mut minimised_count = 0usize;
+    // classify raw violations; minimise the first 80 unexplained ones in
+    // parallel (results are consumed in run order, so output stays
+    // independent of the worker count)
+    let mut to_min: Vec<(u64, Violation)> = Vec::new();
     for (run, v) in raw {
         if let Some(k) = match_known(&known, &v, false) {
             stats.known += 1;
             known_lines.insert(format!("KNOWN-FINDING: property={} {} [{}]", v.property, k.what, k.id));
             continue;
         }
-        let n = reported_classes.entry(v.class.clone()).or_insert(0);
-        *n += 1;
-        if minimised_count >= 80 {
+        if to_min.len() >= 80 {
             // too many to minimise: count them (exit 1) without a replay file
             stats.violations += 1;
             continue;
         }
-        minimised_count += 1;
-        let _ = n;
-        let min = minimise(check, v, 400);
+        to_min.push((run, v));
+    }
+    let slots: Vec<Mutex<Option<Violation>>> = to_min.iter().map(|_| Mutex::new(None)).collect();
+    let next_min = AtomicU64::new(0);
+    std::thread::scope(|s| {
+        for _ in 0..cfg.threads.max(1).min(to_min.len().max(1)) {
+            std::thread::Builder::new()
+                .stack_size(256 << 20)
+                .spawn_scoped(s, || {
+                    crate::sim::install_quiet_panic_hook();
+                    loop {
+                        let i = next_min.fetch_add(1, Ordering::Relaxed) as usize;
+                        if i >= to_min.len() {
+                            break;
+                        }
+                        let min = minimise(check, to_min[i].1.clone(), 400);
+                        *slots[i].lock().unwrap() = Some(min);
+                    }
+                })
+                .unwrap();
+        }
+    });
+    for ((run, _), slot) in to_min.iter().zip(slots) {
+        let run = *run;
+        let min = slot.into_inner().unwrap().expect("minimised");
         // a minimised violation may now match a known finding
         if let Some(k) = match_known(&known, &min, true) {
             stats.known += 1;
@@ -465,6 +487,12 @@ pub fn run_campaign(cfg: &CampaignCfg, check: &dyn Check) -> CampaignResult {
             detail: min.detail.clone(),
             trace_digest: format!("{:016x}", min.trace),
         };
+        let mut file = file;
+        // several violations of one run: keep every replay file
+        let dup = violations.iter().filter(|(_, p): &&(Violation, String)| p.contains(&format!("-{}-{}-{run}", cfg.tier, cfg.seed))).count();
+        if dup > 0 {
+            file.tier = format!("{}-v{dup}", cfg.tier);
+        }
         let path = write_replay(&cfg.replay_dir, &file).unwrap_or_else(|e| format!("<write failed: {e}>"));
         violations.push((min, path));
     }
